@@ -164,6 +164,11 @@ FEATURE_GRAMMARS = [
     ('joins', "start: 'b'%{'a'}+ | 'b'.{'a' 'a'} 'b' ;\n"),
     ('shared-names', "start: 'a' c:n 'b' t:n ['a' e:n] | 'b' c:n ['b' t:n] | l+:'a' | 'b' 'b' l+:n {l+:n} ;\n\nn: /[ab]/ ;\n"),
     ('names-without-sequence', "start: args $ | items $ ;\n\nargs: 'b'.{a+:n} ;\n\nitems: {x+:'a' | y+:'b' 'b'}+ ;\n\nn: 'a' 'a' ;\n"),
+    # names that decide whether a rule is a token rule (no blanks skipped before it): upper case after any underscores
+    ('token-rule-names', "start: 'a' _Word 'a' | 'b' __w 'b' | Word _word ;\n\n_Word: /b+/ ;\n\n__w: /a+/ ;\n\nWord: /a/ ;\n\n_word: /b/ ;\n"),
+    # a cut written directly inside a group commits the enclosing option / optional / closure iteration
+    ('cut-in-group', "start: ('a' ~ 'b') | 'a' 'a' | x:('b' ~ 'a') | 'b' 'b' ;\n"),
+    ('cut-in-group-optional', "start: [('a' ~ 'b')] 'a' $ | {('b' ~ 'a')} 'b' $ ;\n"),
     ('names-in-nested-choice', "start: ('a' x:'a' | 'b' [x:'b'] y:'a') [z:'b' | z+:'a'] ;\n"),
 ]
 
@@ -179,7 +184,7 @@ def feature_inputs(name, tier):
         'unicode': ['é', 'こんにちは', '世界', 'w', 'x', ' '],
     }.get(name, ['a', 'b', ' '])
     n = 4 if tier == 'quick' else 5
-    if name in ('include', 'pynames', 'meta-all', 'lookaheads', 'unicode'):
+    if name in ('include', 'pynames', 'meta-all', 'lookaheads', 'unicode', 'token-rule-names', 'cut-in-group-optional'):
         n = 5       # their longest alternative needs that many lexemes
     if name == 'long-choice':
         n = 2
